@@ -364,6 +364,64 @@ example : expSuffix (-324) = [45, 51, 50, 52] := by decide +kernel
 
 /-! ### printf-style renderers -/
 
+/-! #### no precision is too large (fix 1c70d07)
+
+`format!` takes a `u16` precision and panics above it, so `float.rs` asks it for at most
+`MAX_FLOAT_DIGITS = 1100` digits and writes the rest as `'0'`.  That is exact: -/
+
+/-- Beyond the 1074th decimal a double has only zeros: Rust's `{:.p$}` is `{:.L$}` plus `p - L` zeros
+    for every `p ≥ L ≥ 1074` (every finite double). -/
+theorem fixed_digits_beyond_1074_are_zeros (bits L p : Nat) (hf : isFinite bits = true)
+    (hL : 1074 ≤ L) (hp : L ≤ p) :
+    toFixedL bits p = toFixedL bits L ++ List.replicate (p - L) 48 :=
+  toFixedL_clamp bits L p hf hL hp
+
+/-- Beyond the 1100th digit after the leading one a double has only zeros, and the decimal exponent
+    does not move: Rust's `{:.p$e}` is `{:.L$e}` with `p - L` zeros appended to the mantissa, for every
+    `p ≥ L ≥ 1100` (every double). -/
+theorem exp_digits_beyond_1100_are_zeros (bits L p : Nat) (hL : 1100 ≤ L) (hp : L ≤ p) :
+    toExpL bits p = ((toExpL bits L).1 ++ List.replicate (p - L) 48, (toExpL bits L).2) :=
+  toExpL_clamp' bits L p hL hp
+
+/-- Hence the clamped renderers print what an unbounded `format!` precision would: `format_fixed`,
+    `format_exponent` for every precision and double, `format_general` for every precision and
+    non-negative double (both callers pass `abs`). -/
+theorem format_clamp_invisible (precision bits : Nat) (upper alt asf : Bool) :
+    (formatFixed precision bits upper alt =
+      if isFinite bits then toFixedL bits precision ++ decimalPointOrEmpty precision alt
+      else if isNan bits then formatNan upper else formatInf upper) ∧
+    (formatExponent precision bits upper alt =
+      if isFinite bits then
+        (toExpL bits precision).1 ++ decimalPointOrEmpty precision alt ++ [eChar upper] ++
+          expSuffix (toExpL bits precision).2
+      else if isNan bits then formatNan upper else formatInf upper) ∧
+    (isNeg bits = false → isFinite bits = true →
+      formatGeneralCore precision bits upper alt asf =
+        if (toExpL bits (precision - 1)).2 < -4 ∨
+            (toExpL bits (precision - 1)).2 + (if asf then 1 else 0) ≥ (precision : Int) then
+          maybeRemoveTrailingRedundantChars ((toExpL bits (precision - 1)).1.take (precision + 1)) alt ++
+            decimalPointOrEmpty (precision - 1) alt ++ [eChar upper] ++ expSuffix (toExpL bits (precision - 1)).2
+        else
+          maybeRemoveTrailingRedundantChars
+            (toFixedL bits ((precision : Int) - 1 - (toExpL bits (precision - 1)).2).toNat) alt ++
+            decimalPointOrEmpty ((precision : Int) - 1 - (toExpL bits (precision - 1)).2).toNat alt ++
+            (if asf ∧ !(maybeRemoveTrailingRedundantChars
+                (toFixedL bits ((precision : Int) - 1 - (toExpL bits (precision - 1)).2).toNat) alt).contains 46
+              then [46, 48] else [])) := by
+  refine ⟨formatFixed_unclamped _ _ _ _, formatExponent_unclamped _ _ _ _, ?_⟩
+  intro hs hf
+  rw [formatGeneralCore_unclamped precision bits upper alt asf hs]
+  simp only [hf, if_true]
+
+-- '%.1200f' % 1.5 is "1.5" and 1199 zeros; '%.1200e' % 1.5 is "1.5", 1199 zeros, "e+00"
+example : formatFixed 1200 0x3FF8000000000000 false false = [49, 46, 53] ++ List.replicate 1199 48 := by
+  decide +kernel
+example : formatExponent 1200 0x3FF8000000000000 false false =
+    [49, 46, 53] ++ List.replicate 1199 48 ++ [101, 43, 48, 48] := by decide +kernel
+-- the smallest subnormal has its last non-zero decimal at position 1074: '%.1074f' % 5e-324 ends in "…625"
+example : (formatFixed 1074 1 false false).reverse.take 3 = [53, 50, 54] ∧
+    (formatFixed 1075 1 false false).reverse.take 4 = [48, 53, 50, 54] := by decide +kernel
+
 /-- `format_fixed` is C's `%.{prec}f` / `%#.{prec}f` as Python prints it. -/
 theorem format_fixed_eq_printf (prec bits : Nat) (upper alt : Bool)
     (h : isFinite bits = true ∨ isNeg bits = false) :
